@@ -406,6 +406,14 @@ class Ctx:
             aux = f.parent / ("." + f.stem + ".aux")
             if aux.exists():
                 aux.unlink()
+        if not bad and not errs:
+            # the case files carry the process id in their names: without this they pile up
+            # (kept only when something failed, for inspection; the replay holds the input anyway)
+            for f in files:
+                try:
+                    f.unlink()
+                except OSError:
+                    pass
         return bad, errs
 
     # -------------------------------------------------------------- violations
